@@ -44,7 +44,7 @@ Theorem list_inputs_partial_thm : forall c i, f_lc (c_flags c) = false -> reject
 Proof. intros c i. apply (list_inputs_partial_gen the_code the_guards the_chk_inputs the_chk_stable). Qed.
 
 Theorem list_inputs_complete_thm :
-  k_fix_lookup the_code = true -> k_fix_nonj2 the_code = true -> k_fix_suptpl the_code = true ->
+  k_fix_lookup the_code = true -> k_fix_constref the_code = true -> k_fix_nonj2 the_code = true -> k_fix_suptpl the_code = true ->
   forall c i, f_lc (c_flags c) = false -> rejected c = false -> ns_clash the_code c i = false ->
   trig_py the_code c i = false -> trig_sup_refs the_code c = false ->
   forall x, In x (all_influences the_code c i) -> is_config_input c x = false ->
@@ -73,7 +73,7 @@ Definition w_cfg (m : smode) (omit : bool) (tpl sup : option (list tfile)) : cfg
   {| c_lang := w_lang; c_flags := w_flags m omit; c_ext := None; c_stem := None; c_templates := tpl;
      c_support_templates := sup; c_config_files := [[[99]]]; c_outdir := [[111]] |}.
 Definition w_type (key : N) (ns name : N) (deps : list N) : dtype :=
-  {| t_key := key; t_ns := [[ns]]; t_stem := [name]; t_kind := KStructure; t_src := [[ns]; [name]]; t_deps := deps |}.
+  {| t_key := key; t_ns := [[ns]]; t_stem := [name]; t_kind := KStructure; t_src := [[ns]; [name]]; t_deps := deps; t_crefs := [] |}.
 (* root namespace r with r.A using l.D from a lookup directory *)
 Definition w_inputs_lookup : inputs :=
   {| i_roots := [w_type 1 114 65 [2]]; i_lookup := [w_type 2 108 68 []]; i_root_dir := [[114]] |}.
@@ -81,6 +81,19 @@ Definition w_inputs_plain : inputs :=
   {| i_roots := [w_type 1 114 65 [3]; w_type 3 114 66 []]; i_lookup := []; i_root_dir := [[114]] |}.
 
 Definition listed (c : cfg) (i : inputs) : list path := snd (fst (run the_code (li_of c) i fs_empty)).
+
+(* F-LIST-INPUTS-CONSTREF: r.A uses a CONSTANT of l.D (from a lookup directory) inside an expression only, e.g.
+   `uint8[<=l.D.1.0.MAX] data`; the front end reads l/D, no field of r.A has that type; l/D influences the output and is not listed
+   as long as _dependency_source_files() follows composite fields only *)
+Definition w_inputs_constref : inputs :=
+  {| i_roots := [{| t_key := 1; t_ns := [[114]]; t_stem := [65]; t_kind := KStructure; t_src := [[114]; [65]]; t_deps := []; t_crefs := [2] |}];
+     i_lookup := [w_type 2 108 68 []]; i_root_dir := [[114]] |}.
+Lemma list_inputs_constref_refuted_w : k_fix_constref the_code = false ->
+  let c := w_cfg SAsNeeded false None None in let x := [[108]; [68]] in
+  trig_constref w_inputs_constref = true /\ trig_lookup w_inputs_constref = false
+  /\ eff_trig_tpl the_code c w_inputs_constref = false /\ eff_trig_sup the_code c = false
+  /\ path_in x (influence_set the_code c w_inputs_constref) = true /\ path_in x (listed c w_inputs_constref) = false.
+Proof. intros H. vm_compute in H. first [discriminate H | vm_compute; repeat split; reflexivity]. Qed.
 
 (* non-vacuity: a real run that succeeds and creates type and support files and their directories; its listing *)
 Definition created (c : cfg) (i : inputs) (p : path) : option entry := fst (fst (run the_code (real_of c) i fs_empty)) p.
